@@ -176,8 +176,8 @@ def run(ctx, replay):
     # X07DC: the provisional server set in the delegation cache while a delegation is still being assembled
     x07dc.run_tier(ctx)
     models(ctx, thorough)
-    single = emit(ctx, "Emit_1.cfg", 126)
-    double = emit(ctx, "Emit_2.cfg", 126 * 126, workers=8)
+    single = emit(ctx, "Emit_1.cfg", 133)
+    double = emit(ctx, "Emit_2.cfg", 133 * 133, workers=8)
     # the same scripts under the all-filters-on model: a tree that has gained the owner filter conforms
     # to these predictions instead, which is not drift
     for scripts, cfg in ((single, "EmitSound_1.cfg"), (double, "EmitSound_2.cfg")):
@@ -209,12 +209,12 @@ def run(ctx, replay):
 def level_tier(ctx, variants):
     """resolveState.level on the cached-delegation path: scripts with a race move, in the deep and the shallow namespace.
 
-    Emit_deep: Deep = TRUE, race in {FALSE, TRUE} (36 scripts); Emit_race: Deep = FALSE, race = TRUE (18).  Predictions come
+    Emit_deep: Deep = TRUE, race in {FALSE, TRUE} (38 scripts); Emit_race: Deep = FALSE, race = TRUE (19).  Predictions come
     from the transcription of the pinned code (level++) with the all-filters-on model as the alternative a repaired
     tree conforms to.  Every script runs with qname minimisation off (the model's D6) and on (level 5: the code
     then walks label by label and the increment is exact)."""
     scripts = []
-    for cfg, alt_cfg, n in (("Emit_deep.cfg", "EmitSound_deep.cfg", 36), ("Emit_race.cfg", "EmitSound_race.cfg", 18)):
+    for cfg, alt_cfg, n in (("Emit_deep.cfg", "EmitSound_deep.cfg", 38), ("Emit_race.cfg", "EmitSound_race.cfg", 19)):
         got = emit(ctx, cfg, n)
         alt = {json.dumps(s["script"], sort_keys=True): s for s in emit(ctx, alt_cfg, n, count=False)}
         for s in got:
